@@ -171,6 +171,7 @@ package ratelimitmw
 //@   property C10 C03 C05
 //@   requires MW(mw) && next != nil && rw != nil && req != nil && ecsOptsNonNil(req)
 //@   atcall newRequestInfo assert a-malformed-subnet-option-goes-no-further: !ecsBad
+//@   atcall isBlockedByAccess assert access-check-sees-the-clients-location: ri.Location == loc && ri.ECS == ecs
 //@   atcall processLocationErr assert only-a-malformed-subnet-option-ends-here: errAs(err, ptrtag(dnsmsg.BadECSError))
 //@   modifies heap, rlDrop, rlAllow, rlErr, rlCounted, prlResult, prlCounted, chas, cval, rk, rlog, served, servedReq, servedRW, servedErr,
 //@            writes, wroteReq, wroteResp, wroteId, wroteRcode, wroteNQ, wroteQ, truncSize, rlStage, accessChecks, lastAccessBlocked, ecsBad, ecsDataErrs
